@@ -2,6 +2,7 @@
   C09 — lazy clones clone exactly when, and as often as, they are consumed.
 -/
 import AnyVecModel.Proofs.Exec
+import AnyVecModel.Proofs.KernelValue
 namespace AnyVec
 namespace C09
 open World
@@ -71,6 +72,19 @@ def v1 : VecSt := { v0 with cells := [.val 3], len := 1 }
 def sampleWorld : World := { vecs := [v0, v1], created := 12 }
 example : (push 1 (.lazyElem 0 1) sampleWorld).1.vis 1 = [.val 3, .val 12] ∧
     (push 1 (.lazyElem 0 1) sampleWorld).1.ev = [.clone 11 12] := by decide
+
+/-- **source tie**: consuming a lazy clone is exactly one `clone_into` of the value it refers to (`LazyClone::move_into`
+and `clone_into` of `/repo/src/any_value/lazy_clone.rs`, re-translated on this run) - never a bit copy, and nothing is
+forgotten or consumed - whereas plain values and removal handles move by bit copy + `forget` (+ `consume`). -/
+theorem lazy_clone_is_the_source (b : Bool) :
+    Gen.Kernel.lazy_move_into_trace b = [.call "clone_into" []] ∧
+    Gen.Kernel.lazy_clone_into_trace b = [.call "clone_into" []] ∧
+    Gen.Kernel.value_move_into_trace b =
+      [.call "as_bytes_ptr" [], .call "crate::copy_nonoverlapping_value" [], .call "mem::forget" []] ∧
+    Gen.Kernel.temp_move_into_trace b =
+      [.call "as_bytes_ptr" [], .call "copy_nonoverlapping_value" [], .call "consume" [], .call "mem::forget" []] := by
+  have h := KernelTie.move_into_tie b
+  exact ⟨h.2.2.1, h.2.2.2, h.1, h.2.1⟩
 
 end C09
 end AnyVec
